@@ -23,6 +23,10 @@ CHECKS = {
  "C07": (True, "model_checking", "E2 full depth-first search: the function under the root finder is an adversarial environment answering every new abscissa from a small alphabet (memoised, so each path is a genuine continuous function); ALL answer sequences up to the method's termination bound (Brent: evaluation cap) are explored for 6 brackets x tolerances x ITP parameter grid, incl. the end-point answers (same-sign rejections); plus deviation-bounded search around 6 concrete functions up to the full bound, a 14-function catalogue with known roots on all opposite-sign pairs of 16 end points, and invalid arguments.", "evaluation bounds stated in the evidence; depth bounded by the tolerance (cap for Brent)", E2, "3/C07", "E2"),
  "C08": (True, "exploration", "newton and secant on F(x) = A(x-r) + c N(x-r) for dimension 1-4 x 6 matrices (one singular) x 3 non-linearities x 3 roots x starts (origin, on the root, near along every axis and the diagonal) x tolerances x finite-difference widths x caps (70k systems thorough); polynomial Newton/Muller on 14 root sets from starts inside the contraction region incl. the origin and vertical/skew Muller triples; Steffensen on 10 contractions down to tol 1e-13; callbacks count calls.", "accuracy 8 tol max(1,|r|) + conditioning floor; Ok required only inside the stated convergence region", E1, "3/C08", "E1"),
  "C14": (True, "exploration", "degree 1-10 polynomials expanded in the harness from 7 families of separated root configurations (incl. x^n - c and (x-a)^n - b whose derivatives vanish at the start of the iteration) x leading coefficients x tolerances down to the evaluation noise: exactly n roots, residuals, bottleneck perfect matching with the true roots, conjugate closure; zeros of Legendre/Hermite/Laguerre polynomials for every admissible index against interlacing-bisection references.", "true roots known by construction; admissible index range computed per family and tolerance", E1, "3/C14", "E1"),
+ "C09": (True, "exploration", "tanh-sinh, Gauss-Legendre and adaptive Simpson on a lattice of integrand families with closed-form integrals (monomials of every degree up to 21, x^k e^{ax}, trigonometric mixtures, complex exponentials; normalised) x 5 centres x 4 lengths x tolerances, with explicit reliable classes (type x half-length inequalities); the four weighted rules against closed-form moments and Bessel values; Romberg for n = 1..8 on every monomial up to degree 2n; reversed/empty intervals and negative tolerances; the integrand closure records every abscissa and counts evaluations.", "reliable classes stated in the evidence; K = 4; Simpson work bound 9 + 4 X", E1, "3/C09", "E1"),
+ "C10": (True, "exploration", "Finite tables enumerated completely: every row and entry of the five Gaussian tables (251 rules) and the 7 tanh-sinh levels, compiled from the working tree by a #[path] include and expanded as the integrators consume them: point count, node position/distinctness, positive weights, every moment up to degree 2n-1, nodes as zeros of the three-term recurrence, weights against the Christoffel formula, closed forms for Chebyshev and tanh-sinh.", "tolerances from what the shipped digits deliver (2e-12 / 1e-9 / 64 n eps / 1e-13)", "exhaustive enumeration of finite tables against recurrences and closed forms", "3/C10", "E1"),
+ "C15": (True, "exploration", "lagrange and hermite x 16 node families (real and complex) x n = 1..8 x polynomial and arbitrary data x tolerances, with EVERY order of the nodes enumerated (all n! for n <= 6 thorough, rotations and reversals above): degree bound, value/derivative reproduction, coefficients against an independent dense solve of the (confluent) Vandermonde system, order independence, mismatched lengths.", "bound 64 eps cond(V) (sum|c_k|R^k + |data|) + tolerance terms", E1 + " with exhaustive permutation of node order", "3/C15", "E1"),
+ "C16": (True, "exploration", "free and clamped splines for every knot count 2..40 x 8 spacing patterns (ratio up to 50) x 3 ranges x 5 ordinate kinds (one complex) x end slopes x tolerances: value and first derivative against an independent dense solve of the spline equations at every knot (both sides), knot +- 1e-9 h and 9 interior points per interval; reproduction of cubics/lines; Err outside the range and for invalid inputs.", "tolerance 64 eps x evaluation condition of the expanded piece x (1 + hmax/hmin)", E1, "3/C16", "E1"),
 }
 ALL = ["C%02d" % i for i in range(1, 21)]
 def main():
